@@ -372,8 +372,16 @@ OnRpcEnd(e, lineNo) ==
                 THEN DefineEffect(st, e.decl, c) ELSE {}
       globp == IF e.outcome = "ok" /\ ~IsNoState(st) /\ e.name \in {"define_step", "amend_step", "register_glob", "declare_static"}
                THEN GlobProductViolations(st) ELSE {}
+      \* C08: a declaration that was accepted claims its paths: none of them is (still) somebody else's
+      claimed == IF e.outcome = "ok" /\ e.name = "define_step" /\ ~IsNoState(st) /\ StepKey(e.decl.label) \in Keys(st)
+                 THEN {<<"accepted_declaration_of_a_path_that_another_creator_owns", p>> :
+                         p \in {p \in {e.decl.out[i] : i \in DOMAIN e.decl.out} \cup {e.decl.vol[i] : i \in DOMAIN e.decl.vol} :
+                                  LET f == "file:" \o p IN
+                                  /\ f \in Keys(st) /\ ~st.nodes[f].detached /\ ~st.nodes[StepKey(e.decl.label)].detached
+                                  /\ st.nodes[f].creator # StepKey(e.decl.label)}}
+                 ELSE {}
   IN /\ bad' = bad \o Mk(e, lineNo, "C15", atom \cup effect) \o Mk(e, lineNo, "C09", internal)
-                   \o Mk(e, lineNo, "C08", globp)
+                   \o Mk(e, lineNo, "C08", globp \cup claimed)
      /\ aux' = [aux EXCEPT
            \* a handler that calls another handler is still one request of one client
            !.rpcOpen = IF nested THEN @ ELSE Drop(@, e.task),
